@@ -17,8 +17,14 @@ try:
         sys.exit(3)
     env = dict(os.environ, VERIF_REPO=wt)
     hit = []
-    for p in props:
-        r = subprocess.run([os.path.join(HERE, "check"), p, "--no-evidence"], env=env, capture_output=True, text=True)
+    # first check builds the fact file; the others reuse it and run in parallel
+    from concurrent.futures import ThreadPoolExecutor
+    def run1(p):
+        return p, subprocess.run([os.path.join(HERE, "check"), p, "--no-evidence"], env=env, capture_output=True, text=True)
+    first = run1(props[0])
+    with ThreadPoolExecutor(max_workers=int(os.environ.get("RUNPATCH_JOBS", "8"))) as ex:
+        rest = list(ex.map(run1, props[1:]))
+    for p, r in [first] + rest:
         last = r.stdout.strip().splitlines()[-1] if r.stdout.strip() else ""
         if r.returncode == 2:
             print(p, "COMPILE/ANALYSIS ERROR"); print(r.stdout[-1500:]); break
